@@ -16,6 +16,7 @@ from symcheck.runner import Shard, run_shards
 VERIF = os.path.dirname(os.path.dirname(os.path.abspath(__file__)))
 
 HARNESS_MODULES = {
+    'C02': ['c02_errors'],
     'C03': ['framing:shards_c03'],
     'C04': ['framing:shards_c04'],
     'C11': ['c11_prims'],
@@ -224,6 +225,9 @@ def run_concrete(prop, shard, known, violations, known_hits, harness_errors):
 
 
 def main(argv=None):
+    import warnings  # pylint: disable=import-outside-toplevel
+    warnings.filterwarnings('ignore')
+    os.environ.setdefault('PYTHONWARNINGS', 'ignore')
     parser = argparse.ArgumentParser()
     parser.add_argument('prop', nargs='?')
     parser.add_argument('--tier', default=os.environ.get('VERIF_TIER', 'quick'), choices=['quick', 'thorough'])
@@ -241,4 +245,12 @@ def main(argv=None):
 
 
 if __name__ == '__main__':
-    sys.exit(main())
+    try:
+        CODE = main()
+    except SystemExit:
+        raise
+    except BaseException:  # pylint: disable=broad-except
+        import traceback
+        traceback.print_exc()
+        CODE = EXIT_HARNESS     # a crash of the machinery is never reported as a violation
+    sys.exit(CODE)
